@@ -12,3 +12,29 @@ Theorem C08_tie_relative : forall c p itv,
   pool_eq (gen_relative_regulate c p itv) (fst (apply_write p (relative_write c p))).
 Proof. exact gen_relative_ok. Qed.
 Print Assumptions C08_tie_relative.
+
+(* The selection kernels of Stepwise and DemandSwitch: the loops of RangeSelector.get_rule and DemandSwitch.regulate are
+   matched exactly by the translator and their conditions transcribed as comparison chains (kit/SelectIR.v, over rationals
+   extended by +infinity); with the chains of the current source, the loops' meaning is the model's get_rule / choose -
+   for every lookup table, slave table, supply and demand. *)
+From Coq Require Import List.
+From Cobald Require Import kit.SelectIR.
+Import ListNotations.
+
+Theorem C08_tie_selection_conditions :
+  gen_get_rule_chain = ref_get_rule_chain /\ gen_choose_chain = ref_choose_chain.
+Proof. split; reflexivity. Qed.
+Print Assumptions C08_tie_selection_conditions.
+
+Theorem C08_tie_get_rule : forall lk s, get_rule_p gen_get_rule_chain lk s = get_rule lk s.
+Proof. intros. replace gen_get_rule_chain with ref_get_rule_chain by (symmetry; apply C08_tie_selection_conditions). apply get_rule_p_ref. Qed.
+Print Assumptions C08_tie_get_rule.
+
+Theorem C08_tie_choose : forall slaves default d, choose_p gen_choose_chain default slaves d = choose default slaves d.
+Proof. intros. replace gen_choose_chain with ref_choose_chain by (symmetry; apply C08_tie_selection_conditions). apply choose_p_ref. Qed.
+Print Assumptions C08_tie_choose.
+
+(* not vacuous: with `<` the slave whose threshold equals the demand is not chosen *)
+Example C08_tie_selection_sensitive :
+  choose 0%nat [(10, 1%nat)] 10 = 1%nat /\ choose_p (SBound1, [(RLt, SInput)]) 0%nat [(10, 1%nat)] 10 = 0%nat.
+Proof. split; vm_compute; reflexivity. Qed.
